@@ -79,9 +79,63 @@ func ruleIndexStopsOnlyAtEOF(rule string) func(*Ctx) {
 						n++
 						// (go/cfg records no node for a branch statement: decide on the enclosing conditions)
 						atEOF := false
-						for _, cl := range enclosingCondsFlow(info, f.Body(), x) {
-							if known, equal := sentinelCond(info, cl.e, eof); known && equal == cl.pos {
-								atEOF = true
+						underEOF := func(node ast.Node) bool {
+							for _, cl := range enclosingCondsFlow(info, f.Body(), node) {
+								if known, equal := sentinelCond(info, cl.e, eof); known && equal == cl.pos {
+									return true
+								}
+							}
+							return false
+						}
+						atEOF = underEOF(x)
+						// `done` flags: the exit is under a boolean local that is only ever set to true where a read reported
+						// io.EOF (a helper reporting (done, err), inlined back)
+						if !atEOF {
+							for _, cl := range enclosingCondsFlow(info, f.Body(), x) {
+								e, pos := ast.Unparen(cl.e), cl.pos
+								if u, ok := e.(*ast.UnaryExpr); ok && u.Op == token.NOT {
+									e, pos = ast.Unparen(u.X), !pos
+								}
+								fv, ok := objOfIdent(info, e).(*types.Var)
+								if !ok || !pos || fv.IsField() {
+									continue
+								}
+								if b, ok := fv.Type().Underlying().(*types.Basic); !ok || b.Kind() != types.Bool {
+									continue
+								}
+								sets, allAtEOF := 0, true
+								walkOwn(f.Body(), func(m ast.Node) {
+									as, ok := m.(*ast.AssignStmt)
+									if !ok || len(as.Lhs) != len(as.Rhs) {
+										if ok {
+											for _, l := range as.Lhs {
+												if objOfIdentDefOrUse(info, l) == types.Object(fv) {
+													allAtEOF = false
+												}
+											}
+										}
+										return
+									}
+									for i, l := range as.Lhs {
+										if objOfIdentDefOrUse(info, l) != types.Object(fv) {
+											continue
+										}
+										tv := info.Types[as.Rhs[i]]
+										switch {
+										case tv.Value != nil && tv.Value.String() == "false":
+										case tv.Value != nil && tv.Value.String() == "true":
+											sets++
+											if !underEOF(as) {
+												allAtEOF = false
+											}
+										default:
+											allAtEOF = false
+										}
+									}
+								})
+								if sets > 0 && allAtEOF {
+									atEOF = true
+								}
 							}
 						}
 						c.verdictIf(atEOF, rule, f, fmt.Sprintf("break#%d", n), x.Pos(), "the pass ends only where a read reported io.EOF", "the indexing loop is left without a read having reported io.EOF (e.g. because no header was found at this position): zero padding between archives - as GNU tar writes it - ends the pass, and every record behind it is never indexed")
@@ -492,7 +546,7 @@ func ruleStructRebuildComplete(rule string) func(*Ctx) {
 // buffer first. Growing a file keeps its content and appends zeros - emptying and refilling with zeros destroys it.
 func ruleTruncatePreservesContent(rule string) func(*Ctx) {
 	return func(c *Ctx) {
-		c.floor(rule, 2, "buffer truncations inside (*File).Truncate")
+		c.floor(rule, 1, "buffer truncations inside (*File).Truncate")
 		f := c.fn("pkg/fs", "(*File).Truncate")
 		writeBuf := c.field("pkg/fs", "File", "writeBuf")
 		if f == nil || writeBuf == nil {
@@ -509,7 +563,7 @@ func ruleTruncatePreservesContent(rule string) func(*Ctx) {
 			n++
 			c.verdictIf(size != nil && objOfIdent(info, cs.Call.Args[0]) == types.Object(size), rule, f, fmt.Sprintf("buffer truncate#%d", n), cs.Call.Pos(), "the buffer is cut to the requested size", "File.Truncate cuts the buffer to "+exprString(cs.Call.Args[0])+" instead of the requested size: growing a file (Truncate to a larger size) empties it first and refills it with zeros, so the existing content is lost and the cursor moves")
 		}
-		if n < 2 {
+		if n < 1 {
 			c.unresolved("only %d buffer truncations found in (*File).Truncate", n)
 		}
 	}
